@@ -22,7 +22,7 @@ HARNESS = "c42"
 TIMEOUT = 900
 MANIFEST = {
     "level_text": "Kernel-checked for the volatile, unchunked flow (C43_holds, C43_window): in every reachable state of the model of both controllers under any drop / duplicate / reorder / tick / speed schedule of any length, every SequencedMessage the producer controller sends has seq <= the highest requestUpToSeq the consumer controller has sent so far; producer demandUpTo and currentSeq never exceed it; len(buffer) <= window and requestUpToSeq <= confirmedSeq + window after every consumer handler. Same inductive invariant, model, monitor and step-by-step replay of the real handlers as C42.",
-    "level_note": "PARTIAL for chunked messages (several buffer slots per message), durable queue and controller restart, which are outside the model. Observation recorded in design/C43.md: the bound is protected twice (credit gating in allowNextRequest and the seq > demandUpTo test in emitSequenced); removing only the latter breaks the correspondence but no input violates the property.",
+    "level_note": "The theorems are about the unchunked model (Model/C42). The chunked path is modelled too (Model/C42c: storeChunks, chunk buffering, assembly, structural-violation failures) and tied by the same step-by-step replay plus a chunk-aware monitor, but not proved; there the differential FOUND a violation of the demand clause on the unchanged code (finding C43-F1, fixes/C43-register-demand.diff): after a re-registration chunks are sent beyond every grant. Durable queue and controller restart remain outside the model. Observation recorded in design/C43.md: the bound is protected twice (credit gating in allowNextRequest and the seq > demandUpTo test in emitSequenced); removing only the latter breaks the correspondence but no input violates the property.",
     "technique": "Lean 4 inductive invariant over all fault schedules of an executable model of both controllers + per-step differential replay of the real handlers",
 }
 TRUSTED = list(_c42.TRUSTED)
@@ -31,7 +31,25 @@ RULE = ("scripts of 20..240 ops, windows 1..6 (and 20), fast-producer / slow-con
         "at least one SequencedMessage; distinct by (case, output)")
 
 compare = _c42.compare
-classify = _c42.classify
+
+
+def classify(case, impl, why):
+    """C43-F1: chunk-mode flow, demand failure, and the first message above the highest request so far is a chunk"""
+    f = case.split()
+    if not (len(f) > 3 and f[2].startswith("m") and f[3].startswith("L")) or not why or "demand:" not in why:
+        return None
+    maxreq = 0
+    for seg in (impl or "").split(";"):
+        for tok in seg.split():
+            if tok.startswith("cp:"):
+                for m in REQ.findall(tok):
+                    maxreq = max(maxreq, int(m[3]))
+            if tok.startswith("pc:"):
+                for kind, seq in re.findall(r"(SC?)\(\d+,\d+,(\d+),", tok):
+                    if int(seq) > maxreq:
+                        return "C43-F1" if kind == "SC" else None
+    return None
+
 
 
 def gen_cases(rng, tier):
@@ -39,6 +57,8 @@ def gen_cases(rng, tier):
     cases = [_c42.CLEAN,
              # fill a window of 2 before anything is delivered, then deliver out of order
              "2 0 dcp0 dpc0 dcp0 up up up up up up dpc1 dpc0 uc1 uc1 dcp0 dcp0 up up up up dpc0 dpc0"]
+    for _ in range(n // 4):
+        cases.append(_c42.chunk_case(rng, lambda: _c42.gen_script(rng, rng.choice([40, 100, 200]), rng.choice([0.0, 0.1, 0.3]), rng.choice(["fastprod", "pcheavy"]))))
     for _ in range(n):
         w = rng.choice([1, 1, 2, 2, 2, 3, 3, 4, 6, 20])
         dc = rng.choice([0, 1])
@@ -58,13 +78,15 @@ def search_cases(rng, tier):
     return cases
 
 
-SEQD = re.compile(r"S\((\d+),(\d+),(\d+),(\d+)\)")
+SEQD = re.compile(r"SC?\((\d+),(\d+),(\d+),(\d+)[,\d]*\)")
 REQ = re.compile(r"Q\((\d+),(\d+),(\d+),(\d+),(\d+)\)")
 
 
 def oracle(case, impl, judge):
     if impl.startswith("CRASH") or impl.startswith("panic") or impl.startswith("setup-error"):
         return "harness failed: " + impl[:200]
+    if any(o[:2] in ("fw", "ff") for o in case.split()[2:]):
+        return None    # forged messages: differential only, the links are not faithful (see Driver/C42c.lean)
     if judge is not None:
         return _c42.judge_verdict(judge, ("demand:", "window:"))
     # mirror of the demand/window part of Spec.C42.Mon (used only when the Lean driver is unavailable)
